@@ -22,6 +22,9 @@ theorem sim_co {tick : Bool} {w : World} {j : JState} (_hw : WheelInv w) (h : Si
                 hmap := ((self, tag), (newCallOut w self fn tag delay).2) :: (newCallOut w self fn tag delay).1.hmap }
       (judgeStep j (.co (vnow w) self fn delay tag ((newCallOut w self fn tag delay).2 : Int))) := by
   rw [newCallOut_snd]
+  have key : ∀ c, InWheel (newCallOut w self fn tag delay).1 c ↔ (c = coCall w self fn tag delay ∨ InWheel w c) :=
+    inWheel_newCallOut self fn tag delay
+  rw [newCallOut_fst] at key ⊢
   have hslot : coSlot w delay < N := slotOf_lt _
   have hh0 : (((coSlot w delay + N * (w.unique + 1) : Nat) : Int) == 0) = false := by
     have := N_pos
@@ -65,18 +68,17 @@ theorem sim_co {tick : Bool} {w : World} {j : JState} (_hw : WheelInv w) (h : Si
     show p.handle < ((coSlot w delay + N * (w.unique + 1) : Nat) : Int)
     omega
   · intro c hc
-    have hc' : InWheel (newCallOut w self fn tag delay).1 c := hc.congr rfl
-    rcases (inWheel_newCallOut self fn tag delay c).1 hc' with rfl | hc'
+    rcases (key c).1 (hc.congr rfl) with rfl | hc'
     · exact List.mem_cons_self
     · exact List.mem_cons_of_mem _ (h.wheelPend c hc')
   · intro p hp
     simp only [List.mem_cons] at hp
     rcases hp with rfl | hp
     · left
-      exact ⟨_, ((inWheel_newCallOut self fn tag delay _).2 (Or.inl rfl)).congr rfl, rfl⟩
+      exact ⟨_, ((key _).2 (Or.inl rfl)).congr rfl, rfl⟩
     · rcases h.pendWheel p hp with ⟨c, hc1, hc2⟩ | hx
       · left
-        exact ⟨c, ((inWheel_newCallOut self fn tag delay c).2 (Or.inr hc1)).congr rfl, hc2⟩
+        exact ⟨c, ((key c).2 (Or.inr hc1)).congr rfl, hc2⟩
       · right
         refine ⟨hx.1, ?_⟩
         show p.due ≤ ((coCot w : Nat) : Int) - (T0 : Int)
